@@ -167,6 +167,8 @@ def static_handover_exec():
             h = {"fam": "pool", "type": rng.choice(["node", "array", "small"]), "src": "static", "ns": ns,
                  "place": rng.choice(["lo", "hi"]), "member": 0, "ssz": 2048, "bs": bs}
             one = "an %d 8" % ns
+        if rng.random() < 0.5:     # the assignment target has another block size: it has to come along
+            h["tbs"] = rng.choice([x for x in (256, 512, 1024) if x != bs])
         per_block = max(1, (bs - 32) // (bs // 3 if h["fam"] == "stack" else h["ns"]))
         before = rng.randint(0, per_block * (2048 // bs))
         cmds = [one] * before + ["%s %d" % (rng.choice(["ma", "ma", "mv"]), rng.randint(0, 1)), "kz"]
